@@ -250,10 +250,17 @@ def run_check(prop, tier, seed):
         # families, the quick-size instance for the others (an enlarged instance that hits the time limit is reported
         # as not exhaustive, never as a failure)
         mtier = tier if (tier != "thorough" or P["mc"].index(fam) < 3) else "quick"
-        for k, (scs, maxc) in enumerate(mc_instances(fam, mtier)):
+        todo = [(mtier, x) for x in mc_instances(fam, mtier)]
+        k = -1
+        while todo:
+            itier, (scs, maxc) = todo.pop(0)
+            k += 1
             cfgs = [tlc.cfg_of(copy.deepcopy(s)) for s in scs]
             r = tlc.run_mc(os.path.join(work, "mc_%s_%d" % (fam, k)), cfgs, ["NoCrash"] + P["inv"], P["step"],
                            max_created=maxc, timeout=T["mc_timeout"])
+            if r["status"] == "timeout" and itier == "thorough":
+                # the enlarged instance did not finish in time: the quick-size instance keeps the exhaustive part
+                todo = [("quick", x) for x in mc_instances(fam, "quick")] + todo
             inst = {"family": fam, "configs": len(cfgs), "max_created": maxc, "status": r["status"],
                     "distinct_states": r["distinct"], "transitions": r["states"], "wall_s": round(r["wall"], 1),
                     "invariants": P["inv"], "action_properties": P["step"]}
